@@ -71,8 +71,8 @@ func check(c Case) (r pbt.Result) {
 // The whole 400-year cycle: every start date, 3 steps each (so every day-to-day
 // transition is exercised from every possible position in the month).
 func TestExhaustiveCycle(t *testing.T) {
-	if pbt.ReplayOnly() {
-		t.Skip()
+	if pbt.ReplayDirect(t, check) {
+		return
 	}
 	if sh, _ := pbt.Shard(); sh != 0 {
 		t.Skip("enumeration runs in shard 0 only")
@@ -127,8 +127,8 @@ func TestExhaustiveCycle(t *testing.T) {
 
 // Whole-cycle runs: 146 463 consecutive steps from 12 starts (one per month of 1600).
 func TestWholeCycleRuns(t *testing.T) {
-	if pbt.ReplayOnly() {
-		t.Skip()
+	if pbt.ReplayDirect(t, check) {
+		return
 	}
 	if sh, _ := pbt.Shard(); sh != 0 {
 		t.Skip()
